@@ -269,6 +269,7 @@ impl<'a, 'b> Sem<'a, 'b> {
             "NS".into(),
             v_obj(vec![
                 ("C", v_comp("NS.C")),
+                ("el", v_comp("NS.el")),
                 ("a", v_obj(vec![("B", v_comp("NS.a.B"))])),
             ]),
         ));
@@ -455,7 +456,8 @@ impl<'a, 'b> Sem<'a, 'b> {
             0 => Tag::Html(self.c.choose(HTML_TAGS).to_string()),
             1 => match self.c.pick(6) {
                 0 | 1 => Tag::Bound(self.c.choose(&["C1", "C2"]).to_string()),
-                2 => Tag::Member(self.c.choose(&["NS.C", "NS.a.B"]).to_string()),
+                // (`NS.el`'s property name is matched by the "el" pattern: still a component)
+                2 => Tag::Member(self.c.choose(&["NS.C", "NS.a.B", "NS.el"]).to_string()),
                 3 | 4 => Tag::Unbound(self.c.choose(&["Foo", "foo-bar", "Bar", "myComp"]).to_string()),
                 _ => Tag::Bound("C1".into()),
             },
@@ -888,6 +890,16 @@ impl<'a, 'b> Sem<'a, 'b> {
                         arg: None,
                         mods: None,
                     }
+                }
+            }
+            4 if ns_arg.is_some() && suffix_mods.is_empty() => {
+                // `v-x:arg={[v, arg2, [mods]]}`: the statement does not rank the two argument
+                // sources (the reference accepts either), but the modifier list is unambiguous
+                self.label("directive-ns-arg-with-full-array");
+                DirValue::Array {
+                    value: ve,
+                    arg: Some(Ex::src(self.c.choose(&["\"arg3\"", "dyn1"]), Cat::Other)),
+                    mods: Some(vec![self.c.choose(&["zm", "a-b"]).to_string(), "zz".into()]),
                 }
             }
             4 => {
